@@ -1,6 +1,6 @@
 //! C18 — connection setup honours the URL and fails cleanly on bad input.
 
-use super::{fence, scratch_dir, serve_stream, tcp_listener, unix_listener, with_deadline, Contacts, FenceTarget, Mode, FENCE};
+use super::{fence, scratch_dir, serve_stream, tcp_listener, unix_listener, with_deadline, Contacts, FenceTarget, Mode};
 use crate::common::{catch, cov, Reporter, Tier};
 use crate::vcore::ber;
 use ldap3::{LdapConn, LdapConnAsync, LdapConnSettings, LdapError, StdStream};
@@ -23,6 +23,8 @@ enum Want {
     ConnectError,
     /// establishment must fail with Timeout within the bound
     Timeout,
+    /// the listener is contacted and hangs up during TLS / StartTLS setup: an error, promptly
+    PeerHangsUp(String),
 }
 
 #[derive(Clone, Copy, Debug, PartialEq, Eq)]
@@ -165,7 +167,7 @@ fn judge(rep: &Reporter, c: &Case, env: &Env) {
     fence(&env.fence, &env.contacts);
     // the server end of a pre-opened stream registers itself when the case is set up; only
     // listeners the library connected to by itself count as "contacted" for the error cases
-    let all_new: Vec<String> = env.contacts.lock().unwrap()[n0..].iter().filter(|x| !x.bytes.starts_with(FENCE)).map(|x| x.listener.clone()).collect();
+    let all_new: Vec<String> = env.contacts.lock().unwrap()[n0..].iter().filter(|x| x.listener != "fence").map(|x| x.listener.clone()).collect();
     let expects_prestream = matches!(&c.want, Want::OkAt(l) | Want::FailAfterContact(l) if l.starts_with("prestream"));
     let new: Vec<String> = if expects_prestream { all_new.clone() } else { all_new.iter().filter(|l| !l.starts_with("prestream")).cloned().collect() };
     let got = match r {
@@ -222,7 +224,7 @@ fn judge(rep: &Reporter, c: &Case, env: &Env) {
                 // the StartTLS setting; ldap + StartTLS begins with the StartTLS request
                 let t0 = Instant::now();
                 let first: Vec<u8> = loop {
-                    let b: Vec<u8> = env.contacts.lock().unwrap()[n0..].iter().filter(|x| x.listener == *l && !x.bytes.starts_with(FENCE)).flat_map(|x| x.bytes.clone()).collect();
+                    let b: Vec<u8> = env.contacts.lock().unwrap()[n0..].iter().filter(|x| x.listener == *l).flat_map(|x| x.bytes.clone()).collect();
                     if !b.is_empty() || t0.elapsed() > Duration::from_millis(1500) {
                         break b;
                     }
@@ -235,6 +237,11 @@ fn judge(rep: &Reporter, c: &Case, env: &Env) {
                 if !ldaps && first.first() != Some(&0x30) {
                     bad(format!("ldap + StartTLS must start with the StartTLS request, the peer received {}", ber::hex(&first[..first.len().min(40)])));
                 }
+            }
+        }
+        Want::PeerHangsUp(l) => {
+            if got.is_ok() || got == Err("Timeout") || !new.iter().all(|x| x == l) || new.is_empty() || secs > 2.5 {
+                bad(format!("expected {} to be contacted and the establishment to fail by itself (not by the timeout)", l));
             }
         }
         Want::Timeout => {
@@ -257,6 +264,7 @@ fn want_kind(w: &Want) -> &'static str {
         Want::FailAfterContact(_) => "tls-against-cleartext",
         Want::ConnectError => "unreachable",
         Want::Timeout => "timeout",
+        Want::PeerHangsUp(_) => "peer-hangs-up",
     }
 }
 
@@ -297,6 +305,8 @@ fn run_shard(rep: &Reporter, tier: Tier, shard: usize, nshards: usize) -> ShardO
     let silent_port = tcp_listener("127.0.0.1:0", "tcp:silent", Mode::Silent, contacts.clone()).expect("silent listener");
     // a port nothing listens on: below the ephemeral range (which the environments running side
     // by side draw their listeners from), verified by a refused connection
+    let closer_port = tcp_listener("127.0.0.1:0", "tcp:closer", Mode::CloseAtOnce, contacts.clone()).expect("closer listener");
+    let rtc_port = tcp_listener("127.0.0.1:0", "tcp:read-then-close", Mode::ReadThenClose, contacts.clone()).expect("read-then-close listener");
     let closed_port = (0..2000u16)
         .map(|k| 20011 + (shard as u16) * 2003 + k)
         .find(|p| {
@@ -318,7 +328,12 @@ fn run_shard(rep: &Reporter, tier: Tier, shard: usize, nshards: usize) -> ShardO
     let u2 = unix_listener(&sock_space, "unix:space", Mode::Responder, contacts.clone());
     let u3 = unix_listener(&sock_colon, "unix:colon", Mode::Responder, contacts.clone());
     assert!(u1 && u2 && u3, "verif-machinery: cannot bind Unix listeners under {}", dir);
-    let mut fence_targets = vec![FenceTarget::Tcp(format!("127.0.0.1:{}", open_port)), FenceTarget::Tcp(format!("127.0.0.1:{}", silent_port))];
+    let mut fence_targets = vec![
+        FenceTarget::Tcp(format!("127.0.0.1:{}", open_port)),
+        FenceTarget::Tcp(format!("127.0.0.1:{}", silent_port)),
+        FenceTarget::Tcp(format!("127.0.0.1:{}", closer_port)),
+        FenceTarget::Tcp(format!("127.0.0.1:{}", rtc_port)),
+    ];
     if v6_open {
         fence_targets.push(FenceTarget::Tcp(format!("[::1]:{}", open_port)));
     }
@@ -507,6 +522,17 @@ fn run_shard(rep: &Reporter, tier: Tier, shard: usize, nshards: usize) -> ShardO
         for (scheme, starttls) in [("ldap", true), ("ldaps", false), ("ldaps", true)] {
             for ms in [300u64, 700] {
                 cases.push(Case { url: format!("{}://127.0.0.1:{}/", scheme, silent_port), starttls, pre: Pre::None, timeout_ms: Some(ms), sync_api, want: Want::Timeout, api: 0 });
+            }
+        }
+    }
+    // peers that hang up - at once, or after reading the first bytes - while TLS or StartTLS is
+    // being set up: establishment fails by itself, with and without a connection timeout
+    for sync_api in [false, true] {
+        for (scheme, starttls) in [("ldap", true), ("ldaps", false), ("ldaps", true)] {
+            for (port, l) in [(closer_port, "tcp:closer"), (rtc_port, "tcp:read-then-close")] {
+                for timeout_ms in [None, Some(3000u64)] {
+                    cases.push(Case { url: format!("{}://127.0.0.1:{}/", scheme, port), starttls, pre: Pre::None, timeout_ms, sync_api, want: Want::PeerHangsUp(l.into()), api: 0 });
+                }
             }
         }
     }
